@@ -93,7 +93,7 @@ func c05Alphabet(ft int) []string {
 func c05Burst(cfg FCfg, env *Env) CellResult {
 	opt := vsched.Options{PreemptionBound: 2, EnvBound: 0, HBCache: true}
 	if env.Thorough() {
-		opt = vsched.Options{PreemptionBound: -1, EnvBound: 0, HBCache: true, MaxExecs: 400000}
+		opt = vsched.Options{PreemptionBound: -1, EnvBound: 0, HBCache: true, MaxExecs: 5000000}
 	}
 
 	front := frontNames[cfg.Front]
@@ -336,7 +336,7 @@ func init() {
 		Assumptions: []string{
 			"a burst happens at one virtual instant, so the built result stays fresh for its whole duration",
 			"contexts carrying a TTL or SkipRead are outside the statement's quantifier and are not used here",
-			"quick: preemption bound 2; thorough: unbounded with happens-before caching (capped at 400k executions per cell)",
+			"quick: preemption bound 2; thorough: unbounded with happens-before caching (safety cap 5M executions per cell, reported if hit)",
 		},
 	})
 }
